@@ -340,6 +340,32 @@ def run(ctx: Ctx, rs: RuleSet, tier: str):
     elif c == 'idempotent-cache':
       _cache_rule(ctx, rs, rule, q, writers[q], loc)
 
+  # ---- a saved guard value lives in a local of the saving frame
+  rule = 'TLS.saved-value-local'
+  rs.declare(rule, 'the previous value of a thread-local flag is saved in a '
+             'local variable, never on a shared object', 1)
+  n_saves = 0
+  for g_ in common.thread_local_guards(ctx):
+    for fq, f in sorted(p.funcs.items()):
+      for st in walk_function(f.node):
+        if not isinstance(st, ast.Assign):
+          continue
+        if not common._is_guard_read(ctx, st.value, f, g_):
+          continue
+        n_saves += 1
+        shared = [t for t in st.targets if not isinstance(t, ast.Name) or (
+            t.id in {n for x in walk_function(f.node)
+                     if isinstance(x, ast.Global) for n in x.names})]
+        rs.check(not shared, rule, f'{fq}:save of {g_.name}',
+                 'saved in a local' if not shared else
+                 f'`{unparse(st)[:70]}` keeps one thread\'s flag value on an '
+                 'object other threads use too (an attribute of a shared '
+                 'instance / a module global): with two threads inside the '
+                 'block at once, the one that leaves last restores the other '
+                 'thread\'s value', ctx.loc(f, st))
+  if n_saves == 0:
+    rs.ok(rule, 'no-saves', 'no thread-local flag value is saved anywhere', '')
+
   # ---- thread-local attributes never accessed through the class
   rule = 'TLS.instance-access'
   rs.declare(rule, 'thread-local flags are read and written only through the '
@@ -357,6 +383,27 @@ def run(ctx: Ctx, rs: RuleSet, tier: str):
              f'`{g.attr}` is accessed through the class {g.cls} in '
              f'{bad[0][0]} (shared by all threads)',
              ctx.loc(p.funcs[bad[0][0]], bad[0][1]) if bad else '')
+
+
+def cache_premise(ctx: Ctx, rs: RuleSet, rule: str, names):
+  """Re-verifies, for another property, that the named module-level caches are
+
+  read and written under the same key, that the key is built from the
+  function's parameters (the callable itself, not something coarser) and that
+  the stored value is computed from exactly that key.
+  """
+  objs = shared_objects(ctx)
+  writers = writers_of(ctx, objs)
+  rs.declare(rule, 'caches consulted on this path return only what was '
+             'computed for the very same key', len(names))
+  for q in names:
+    if q not in objs:
+      rs.fail(rule, q, f'{q} is no longer a module-level cache', '')
+      continue
+    kind, node = objs[q]
+    mod = ctx.p.modules[q.rsplit('.', 1)[0]]
+    _cache_rule(ctx, rs, rule, q, writers[q],
+                f'{mod.relpath}:{getattr(node, "lineno", 0)}')
 
 
 def _cache_rule(ctx: Ctx, rs: RuleSet, rule: str, q: str, ws, loc: str):
